@@ -1034,10 +1034,14 @@ class StructOf(DataType):
             for key, val in value.items():
                 if val is not None:  # goodie: allow None instead of missing key
                     result[key] = self.members[key].validate(val)
-            return ImmutableDict(result)
         except Exception as e:
             errcls = RangeError if isinstance(e, RangeError) else WrongTypeError
             raise errcls('struct element %s is invalid' % key) from e
+        # a None given for a mandatory member must be backed by the previous value
+        missing = set(self.members) - set(self.optional) - set(result)
+        if missing:
+            raise WrongTypeError(f"missing struct elements: {', '.join(missing)}")
+        return ImmutableDict(result)
 
     def check_type(self, value, allow_optional=False):
         if not isinstance(value, Mapping):
